@@ -13,7 +13,7 @@ seeded random edit sequences.  Bounded; never counted as proved.
 import ast
 import random
 
-from contracts.b_lib import (REFUSALS, tree_diff, c01_violation, dump, node_paths, follow)
+from contracts.b_lib import (REFUSALS, tree_diff, c01_violation, dump, node_paths, follow, sdump)
 
 DONORS_EXPR = ['x', 'a + b', 'a, b', '(a, b)', 'a if b else c', 'lambda: z', 'f(\n  1,\n  2)', 'not a', 'a or b',
                'yield q', 'w := 1', '*s', 'a < b', '-a', 'a ** b', 'await a', '[i for i in j]', '(a +\n b)',
@@ -34,37 +34,7 @@ def category(f):
     return 'other'
 
 
-def slot_desc(root_ast, path):
-    """ParentClass.field[ctx] of the slot designated by path (call-site class used to key findings)"""
-    t = root_ast
-    parent = None
-    for name, idx in path:
-        parent = t
-        t = getattr(t, name)
-        if idx is not None:
-            t = t[idx]
-    if parent is None:
-        return 'root'
-    d = f'{parent.__class__.__name__}.{path[-1][0]}'
-    ctx = getattr(t, 'ctx', None) or getattr(parent, 'ctx', None)
-    if ctx is not None and not isinstance(ctx, ast.Load):
-        d += f'[{ctx.__class__.__name__}]'
-    return d
-
-
-def under_fstring(root_ast, path):
-    t = root_ast
-    for name, idx in path:
-        t = getattr(t, name)
-        if idx is not None:
-            t = t[idx]
-        if t.__class__.__name__ in ('JoinedStr', 'TemplateStr'):
-            return True
-    return False
-
-
-def _nosimple(d):
-    return d.replace('simple=1', 'simple=?').replace('simple=0', 'simple=?')
+from contracts.b_edit_slots import slot_desc, under_fstring, _nosimple  # noqa: E402
 
 
 def placeholder_dump(tree, path):
@@ -84,14 +54,14 @@ def placeholder_dump(tree, path):
         old = getattr(parent, name)
         setattr(parent, name, marker)
         try:
-            return ast.dump(tree)
+            return sdump(tree)
         finally:
             setattr(parent, name, old)
     lst = getattr(parent, name)
     old = lst[idx]
     lst[idx] = marker
     try:
-        return ast.dump(tree)
+        return sdump(tree)
     finally:
         lst[idx] = old
 
@@ -120,6 +90,19 @@ class Sweep:
             kw.pop('program', None)
             self.failures.append(dict(key=f'{prop}.B.{key}', what=what, program=self.name, replayed=True, **kw))
 
+    def pre_edit(self, root):
+        if 'C02' in self.props and self.payload.get('prepass', True):
+            from contracts import b_query
+            b_query.prepass(root)
+
+    def post_edit(self, root, key, what_op, v=None):
+        """C02 postcondition after a successful edit that satisfied C01 (v is None)"""
+        if 'C02' in self.props and not v:
+            from contracts import b_query
+            q = b_query.compare(root)
+            if q:
+                self.fail('C02', key, f'after {what_op}: {q}', src_after=root.src[:300])
+
     # one operation on a fresh tree ----------------------------------------------------------------------------------
     def step(self, path, opname, fn, expect_same_structure=False, law=None, root=None, seq=None):
         """fn(root, node) performs the edit. Returns root or None."""
@@ -134,8 +117,9 @@ class Sweep:
         ph0 = (placeholder_dump(root.a, path) if 'C03' in self.props and law == 'others'
                and not under_fstring(root.a, path) else None)
         cls0 = node.a.__class__
-        s0 = ast.dump(root.a) if expect_same_structure else None
+        s0 = sdump(root.a) if expect_same_structure else None
         desc = {'program': self.name, 'path': [list(p) for p in path], 'op': opname, 'seq': seq, 'slot': slot}
+        self.pre_edit(root)
         try:
             fn(root, node)
         except Exception as e:
@@ -148,10 +132,11 @@ class Sweep:
         self.distinct.add(('ok', path, opname))
         if len(self.samples) < 2:
             self.samples.append(dict(desc, result='ok', new_src_head=root.src[:80]))
-        v = c01_violation(root) if ('C01' in self.props or 'C12' in self.props or 'C08' in self.props) else None
+        v = c01_violation(root)
         if v:
             self.fail('C01', f'{opname.split(chr(40))[0]}@{slot}:{self.name}:{path}:{opname}', f'after {opname}: {v}', **desc, src_after=root.src[:400])
-        if expect_same_structure and not v and ast.dump(root.a) != s0:
+        self.post_edit(root, f'{opname.split(chr(40))[0]}@{slot}:{self.name}:{path}:{opname}', opname, v)
+        if expect_same_structure and not v and sdump(root.a) != s0:
             self.fail('C08', f'{opname.split(chr(40))[0]}@{slot}:{self.name}:{path}:{opname}', f'{opname} with the node\'s own code changed the structure',
                       **desc, src_after=root.src[:400])
         if ph0 is not None and not v:
@@ -193,6 +178,10 @@ class Sweep:
         quick = self.payload.get('tier', 'quick') == 'quick'
         rnd = random.Random(hash((self.payload.get('seed', 0), self.name)) & 0xffffffff)
         ops = self.payload.get('ops', ['self', 'remove', 'donor', 'slice'])
+        stride = self.payload.get('stride', 1) if quick else 1
+        if stride > 1:
+            off = rnd.randrange(stride)
+            paths = [p for k, p in enumerate(paths) if k % stride == off]
         for path, cat, cls in paths:
             if 'self' in ops:
                 self.step(path, 'replace(own copy)', lambda r, n: n.replace(n.copy()), True, 'others')
@@ -203,14 +192,29 @@ class Sweep:
                 self.step(path, 'cut()', lambda r, n: n.cut())
             if 'donor' in ops and cat in ('expr', 'stmt', 'pattern'):
                 donors = {'expr': DONORS_EXPR, 'stmt': DONORS_STMT, 'pattern': DONORS_PAT}[cat]
-                if quick and len(donors) > 8:
-                    donors = rnd.sample(donors, 8)
+                dn = self.payload.get('donor_n', 8)
+                if quick and len(donors) > dn:
+                    donors = rnd.sample(donors, dn)
                 for d in donors:
                     self.step(path, f'replace({d!r})', lambda r, n, d=d: n.replace(d), False, 'others')
                 if cat == 'expr' and not quick:
                     for d in DONORS_EXPR[:6]:
                         self.step(path, f'replace(FST {d!r})', lambda r, n, d=d: n.replace(self.FST(d, 'expr')),
                                   False, 'others')
+        if 'copy' in ops:
+            from contracts import b_edit_ext
+            for path, cat, cls in paths:
+                b_edit_ext.copy_step(self, path, cat)
+            b_edit_ext.copy_slices(self, root, quick, rnd)
+        if 'accessors' in ops:
+            from contracts import b_edit_ext
+            b_edit_ext.accessor_steps(self, root, quick, rnd)
+        if 'views' in ops:
+            from contracts import b_edit_views
+            b_edit_views.view_steps(self, root, quick, rnd)
+        if 'optional' in ops:
+            from contracts import b_edit_views
+            b_edit_views.optional_steps(self, root, quick, rnd)
         if 'slice' in ops:
             self.sweep_slices(root, quick, rnd)
         if 'seq' in ops:
@@ -248,11 +252,12 @@ class Sweep:
             return
         self.ev += 1
         src0, d0 = root.src, dump(root.a)
-        old = [ast.dump(e) if e is not None else None for e in getattr(node.a, fld)]
+        old = [sdump(e) for e in getattr(node.a, fld)]
         cls0 = node.a.__class__
         slot = f'{cls0.__name__}.{fld}'
         desc = {'program': self.name, 'path': [list(p) for p in path], 'op': f'{kind} {fld}[{i}:{j}]', 'seq': None,
                 'slot': slot}
+        self.pre_edit(root)
         try:
             if kind == 'delete':
                 node.put_slice(None, i, j, fld)
@@ -282,12 +287,13 @@ class Sweep:
         if v:
             self.fail('C01', key, f'after {desc["op"]}: {v}', **desc, src_after=root.src[:400])
             return
+        self.post_edit(root, key, desc['op'])
         if 'C03' in self.props or 'C08' in self.props:
             try:
                 node2 = follow(root, path) if path else root
                 if node2.a.__class__ is not cls0:
                     return  # the container was normalised into another node kind - not judged here
-                got = [ast.dump(e) if e is not None else None for e in getattr(node2.a, fld)]
+                got = [sdump(e) for e in getattr(node2.a, fld)]
             except Exception:
                 return  # the container itself was normalised away (e.g. emptied block) - not judged here
             norm = lambda xs: [x.replace('Store()', 'Load()').replace('Del()', 'Load()') if x else x for x in xs]
@@ -351,7 +357,7 @@ def replay(payload):
     if name not in progs:
         return {'reproduced': False, 'note': 'program not in corpus'}
     prop = rep['key'].split('.')[0]
-    ops = ['self', 'remove', 'donor', 'slice']
+    ops = ['self', 'remove', 'donor', 'slice', 'copy', 'accessors', 'views', 'optional']
     r = work(name, progs[name], {'props': [prop], 'ops': ops, 'tier': 'thorough', 'seed': rep.get('seed', 0)})
     hit = [f for f in r['failures'] if f['key'] == rep['key']]
     return {'reproduced': bool(hit), 'failure': hit[:1]}
